@@ -205,15 +205,21 @@ structure RC where
   sched : List WOp
   deriving DecidableEq, Repr
 
-def RC.step (c : RC) : HOp → RC
-  | .header s =>
-    let c1 : RC :=
-      if c.wroteHeader then c
-      else if s ≥ 300 then { c with encoding := [], wroteHeader := true }       -- don't compress errors
-      else if c.encoding ≠ [] ∧ c.encoding ≠ identity then
-        { c with rw := c.rw.setCE (some c.encoding), wroteHeader := true }
-      else { c with wroteHeader := true }
-    { c1 with rw := c1.rw.writeHeader s }
+/-- `responseCompressor.WriteHeader(s)` -/
+def RC.headerStep (c : RC) (s : Nat) : RC :=
+  let c1 : RC :=
+    if c.wroteHeader then c
+    else if s ≥ 300 then { c with encoding := [], wroteHeader := true }       -- don't compress errors
+    else if c.encoding ≠ [] ∧ c.encoding ≠ identity then
+      { c with rw := c.rw.setCE (some c.encoding), wroteHeader := true }
+    else { c with wroteHeader := true }
+  { c1 with rw := c1.rw.writeHeader s }
+
+/-- one operation of the handler on the wrapped writer.  `fx = true`: the code after the repair of
+    F-chttp-flush / F-chttp-empty (`Flush` goes through `WriteHeader(200)` first when the header has not
+    been written); `fx = false`: the code before. -/
+def RC.step (fx : Bool) (c : RC) : HOp → RC
+  | .header s => c.headerStep s
   | .write d =>
     let c1 : RC :=
       if c.started then c
@@ -224,15 +230,22 @@ def RC.step (c : RC) : HOp → RC
         { c0 with started := true }     -- setupCompression(w.encoding, w.rw)
     { c1 with sched := c1.sched ++ [.write d] }
   | .flush =>
+    let c0 : RC := if fx = true ∧ c.wroteHeader = false then c.headerStep 200 else c
     -- `w.wc.(flusher)` on a nil interface is false: nothing to flush before the first Write
-    let c1 : RC := if c.started then { c with sched := c.sched ++ [.flush] } else c
+    let c1 : RC := if c0.started then { c0 with sched := c0.sched ++ [.flush] } else c0
     { c1 with rw := c1.rw.flush }
 
 /-- `wrapped.Close()` followed by the end of `ServeHTTP` (net/http writes the header if nobody did).
-    Everything the compressor emitted went to `rw.Write` after `rw.WriteHeader` had been called. -/
-def RC.finish (C : Codecs) (c : RC) : RW :=
-  let body := if c.started then (C.ofStr c.encoding).enc c.sched else []
-  ({ c.rw with body := body }).writeHeader 200
+    Everything the compressor emitted went to `rw.Write` after `rw.WriteHeader` had been called.
+    `fx = true` (after the repair): a coding that was announced but never written to gets its empty
+    stream (`w.Write(nil)` before `w.wc.Close()`). -/
+def RC.finish (fx : Bool) (C : Codecs) (c : RC) : RW :=
+  let c1 : RC :=
+    if fx = true ∧ c.started = false ∧ c.wroteHeader = true ∧ c.encoding ≠ [] ∧ c.encoding ≠ identity then
+      { c with started := true, sched := c.sched ++ [.write []] }
+    else c
+  let body := if c1.started then (C.ofStr c1.encoding).enc c1.sched else []
+  ({ c1.rw with body := body }).writeHeader 200
 
 /-! ## the middleware -/
 
@@ -275,8 +288,8 @@ def requestCoding (r : Req) : Option Coding := codingOf (headerGet r.ce)
 def responseEncoding (r : Req) : Str := selectEncoding (headerGet r.ae)
 
 /-- `compresshttp.Middleware(next).ServeHTTP`; `preCL` is a `Content-Length` already present in the
-    header map when the middleware is entered (set by an outer layer) -/
-def middleware (C : Codecs) (next : Handler) (preCL : Option Nat) (r : Req) : Resp :=
+    header map when the middleware is entered (set by an outer layer); `fx` as in `RC.step` -/
+def middlewareG (fx : Bool) (C : Codecs) (next : Handler) (preCL : Option Nat) (r : Req) : Resp :=
   match requestCoding r with
   | none => httpError 415 msg415
   | some k =>
@@ -290,7 +303,13 @@ def middleware (C : Codecs) (next : Handler) (preCL : Option Nat) (r : Req) : Re
         respOf ((ops.foldl RW.step w0).writeHeader 200) (some rd)
       else
         let c0 : RC := ⟨w0.setCL none, e, false, false, []⟩
-        respOf ((ops.foldl RC.step c0).finish C) (some rd)
+        respOf ((ops.foldl (RC.step fx) c0).finish fx C) (some rd)
+
+/-- the middleware as it is (after the repair of F-chttp-flush / F-chttp-empty) -/
+def middleware (C : Codecs) (next : Handler) (preCL : Option Nat) (r : Req) : Resp := middlewareG true C next preCL r
+
+/-- the middleware before that repair -/
+def middlewareOrig (C : Codecs) (next : Handler) (preCL : Option Nat) (r : Req) : Resp := middlewareG false C next preCL r
 
 /-! ## the client side -/
 
@@ -327,6 +346,36 @@ def clientRead (C : Codecs) (explicit chunked : Bool) (resp : Resp) (e : End) : 
     | some k =>
       if (C.of k).opens resp.body = false then .error  -- gzip.NewReader failed
       else .body resp.status (readAll (C.of k) (resp.body, e))
+
+/-! ## the signers that read their whole input into memory (signers/appmanifest, signers/cat: `sign`) -/
+
+/-- `const maxInputSize` of signers/appmanifest/signer.go and signers/cat/signer.go (since the repair of F-chttp-bomb) -/
+def appmanifestMax : Nat := 64 * 1024 * 1024
+def catMax : Nat := 256 * 1024 * 1024
+
+structure Buffered where
+  /-- `blob`: what the signer holds in memory -/
+  held : Bytes
+  /-- `ok blob`: the blob goes on to the parser; `err`: refused before any parsing -/
+  res : Res Bytes
+  deriving DecidableEq, Repr
+
+/-- `blob, err := ioutil.ReadAll(io.LimitReader(r, maxInputSize+1))`, then `len(blob) > maxInputSize` → error.
+    `s` = what the (decoded) request body yields and how it ends; once `max + 1` bytes have been read the
+    `LimitReader` reports EOF and the rest of the stream is never looked at. -/
+def bufferInput (max : Nat) (s : Stream) : Buffered :=
+  let blob := s.1.take (max + 1)
+  if blob.length > max then ⟨blob, .err "too-large"⟩
+  else
+    match s.2 with
+    | .eof => ⟨blob, .ok blob⟩
+    | .error _ => ⟨blob, .err "read"⟩
+
+/-- before the repair: `ioutil.ReadAll(r)` -/
+def bufferInputOrig (s : Stream) : Buffered :=
+  match s.2 with
+  | .eof => ⟨s.1, .ok s.1⟩
+  | .error _ => ⟨s.1, .err "read"⟩
 
 /-! ## toy codecs (instances of the laws; used by the native driver) -/
 
